@@ -75,6 +75,25 @@ func checkFunc(fset *token.FileSet, file string, fd *ast.FuncDecl, nsites, ndefe
 		}
 		return true
 	})
+	var lits []*ast.FuncLit
+	var gos []*ast.GoStmt
+	ast.Inspect(fd.Body, func(n ast.Node) bool {
+		switch x := n.(type) {
+		case *ast.FuncLit:
+			lits = append(lits, x)
+		case *ast.GoStmt:
+			gos = append(gos, x)
+		}
+		return true
+	})
+	insideLit := func(p token.Pos) bool {
+		for _, l := range lits {
+			if l.Pos() <= p && p < l.End() {
+				return true
+			}
+		}
+		return false
+	}
 	var sites []site
 	aliases := map[*ast.Object][]*ast.Object{} // pooled value -> variables holding its Buffer()
 	assigns := map[*ast.Object][]token.Pos{}   // re-assignments (a fresh Borrow)
@@ -91,6 +110,21 @@ func checkFunc(fset *token.FileSet, file string, fd *ast.FuncDecl, nsites, ndefe
 			}
 			if deferred[x] {
 				*ndeferred++
+				// (added for C06, seeded change C06-g) a give-back deferred in the function itself runs when the function RETURNS: a goroutine the
+				// function started and that uses the pooled value goes on using it afterwards
+				if !insideLit(x.Pos()) {
+					for _, g := range gos {
+						ast.Inspect(g, func(m ast.Node) bool {
+							if u, ok := m.(*ast.Ident); ok && u.Obj == id.Obj {
+								*out = append(*out, Violation{File: file, Line: fset.Position(u.Pos()).Line, Func: fd.Name.Name,
+									What: fmt.Sprintf("%s is used by a goroutine started at line %d, but is given back to the pool when %s returns (deferred at line %d)",
+										id.Name, fset.Position(g.Pos()).Line, fd.Name.Name, fset.Position(x.Pos()).Line)})
+								return false
+							}
+							return true
+						})
+					}
+				}
 				return true
 			}
 			*nsites++
